@@ -5,11 +5,11 @@ set_option linter.unusedVariables false
 set_option maxRecDepth 2000
 /-! C01: soundness of assignability w.r.t. instance-of, rule off (`sfh = false`), on the fragment `Ty.Frag`. -/
 namespace Pcore.Lat
-variable (cfg : Cfg)
+variable (cfg : Cfg) (sfh : Bool)
 
 structure Hyp (a b : Ty) (v : Val) : Prop where
-  fa : a.Frag
-  fb : b.Frag
+  fa : a.Frag sfh
+  fb : b.Frag sfh
   wa : Ty.WF cfg a
   wb : Ty.WF cfg b
   us : b.US
@@ -17,70 +17,70 @@ structure Hyp (a b : Ty) (v : Val) : Prop where
   tv : Val.TyOK cfg v
 
 def Sound (n : Nat) : Prop :=
-  ∀ a b v, a.w + b.w ≤ n → Hyp cfg a b v → asg cfg false a b = true → inst cfg false b v = true → inst cfg false a v = true
+  ∀ a b v, a.w + b.w ≤ n → Hyp cfg sfh a b v → asg cfg sfh a b = true → inst cfg sfh b v = true → inst cfg sfh a v = true
 
 theorem Rng.sub_contains {r r' : Rng} {i : Int} (h : r.sub r' = true) (h' : r'.contains i = true) : r.contains i = true := by
   simp [Rng.sub, Rng.contains] at *; omega
 
 theorem sameNullary_inst {a b : Ty} (h : sameNullary a b = true) (v : Val) :
-    inst cfg false b v = inst cfg false a v := by
+    inst cfg sfh b v = inst cfg sfh a v := by
   cases a <;> cases b <;> simp [sameNullary] at h <;> try rfl
   all_goals (rename_i p q; cases p <;> cases q <;> simp at h; rfl)
 
 /-- nothing is an instance of a string-family type but strings -/
-theorem inst_strfam {b : Ty} (hb : isStringFamily b = true) {v : Val} (h : inst cfg false b v = true) : ∃ s, v = .str s := by
+theorem inst_strfam {b : Ty} (hb : isStringFamily b = true) {v : Val} (h : inst cfg sfh b v = true) : ∃ s, v = .str s := by
   cases b <;> simp [isStringFamily] at hb <;> (unfold inst at h; cases v <;> simp at h <;> exact ⟨_, rfl⟩)
 
-theorem recv_undef (b : Ty) (v : Val) (h : asgRecv cfg false .undef b = true) (hi : inst cfg false b v = true) :
-    inst cfg false .undef v = true := by
+theorem recv_undef (b : Ty) (v : Val) (h : asgRecv cfg sfh .undef b = true) (hi : inst cfg sfh b v = true) :
+    inst cfg sfh .undef v = true := by
   unfold asgRecv at h; cases b <;> simp at h; exact hi
 
-theorem recv_dflt (b : Ty) (v : Val) (h : asgRecv cfg false .dflt b = true) (hi : inst cfg false b v = true) :
-    inst cfg false .dflt v = true := by
+theorem recv_dflt (b : Ty) (v : Val) (h : asgRecv cfg sfh .dflt b = true) (hi : inst cfg sfh b v = true) :
+    inst cfg sfh .dflt v = true := by
   unfold asgRecv at h; cases b <;> simp at h; exact hi
 
-theorem recv_numeric (b : Ty) (v : Val) (h : asgRecv cfg false .numeric b = true) (hi : inst cfg false b v = true) :
-    inst cfg false .numeric v = true := by
+theorem recv_numeric (b : Ty) (v : Val) (h : asgRecv cfg sfh .numeric b = true) (hi : inst cfg sfh b v = true) :
+    inst cfg sfh .numeric v = true := by
   unfold asgRecv at h; cases b <;> simp at h <;> (unfold inst at hi ⊢; cases v <;> simp at hi ⊢)
 
-theorem recv_str (b : Ty) (v : Val) (h : asgRecv cfg false .str b = true) (hi : inst cfg false b v = true) :
-    inst cfg false .str v = true := by
+theorem recv_str (b : Ty) (v : Val) (h : asgRecv cfg sfh .str b = true) (hi : inst cfg sfh b v = true) :
+    inst cfg sfh .str v = true := by
   unfold asgRecv at h
-  obtain ⟨s, rfl⟩ := inst_strfam cfg h hi
+  obtain ⟨s, rfl⟩ := inst_strfam cfg sfh h hi
   unfold inst; rfl
 
-theorem recv_bin (b : Ty) (v : Val) (h : asgRecv cfg false .bin b = true) (hi : inst cfg false b v = true) :
-    inst cfg false .bin v = true := by
+theorem recv_bin (b : Ty) (v : Val) (h : asgRecv cfg sfh .bin b = true) (hi : inst cfg sfh b v = true) :
+    inst cfg sfh .bin v = true := by
   unfold asgRecv at h; cases b <;> simp at h; exact hi
 
-theorem recv_int (r : Rng) (b : Ty) (v : Val) (h : asgRecv cfg false (.int r) b = true) (hi : inst cfg false b v = true) :
-    inst cfg false (.int r) v = true := by
+theorem recv_int (r : Rng) (b : Ty) (v : Val) (h : asgRecv cfg sfh (.int r) b = true) (hi : inst cfg sfh b v = true) :
+    inst cfg sfh (.int r) v = true := by
   unfold asgRecv at h; cases b <;> simp at h
   unfold inst at hi ⊢; cases v <;> simp at hi ⊢
   exact Rng.sub_contains h hi
 
-theorem recv_tspan (r : Rng) (b : Ty) (v : Val) (h : asgRecv cfg false (.tspan r) b = true) (hi : inst cfg false b v = true) :
-    inst cfg false (.tspan r) v = true := by
+theorem recv_tspan (r : Rng) (b : Ty) (v : Val) (h : asgRecv cfg sfh (.tspan r) b = true) (hi : inst cfg sfh b v = true) :
+    inst cfg sfh (.tspan r) v = true := by
   unfold asgRecv at h; cases b <;> simp at h
   unfold inst at hi ⊢; cases v <;> simp at hi ⊢
   exact Rng.sub_contains h hi
 
-theorem recv_float (lo hi' : Fl) (b : Ty) (v : Val) (h : asgRecv cfg false (.float lo hi') b = true) (hi : inst cfg false b v = true) :
-    inst cfg false (.float lo hi') v = true := by
+theorem recv_float (lo hi' : Fl) (b : Ty) (v : Val) (h : asgRecv cfg sfh (.float lo hi') b = true) (hi : inst cfg sfh b v = true) :
+    inst cfg sfh (.float lo hi') v = true := by
   unfold asgRecv at h; cases b <;> simp at h
   unfold inst at hi ⊢; cases v <;> simp at hi ⊢
   exact ⟨Int.le_trans h.1 hi.1, Int.le_trans hi.2 h.2⟩
 
-theorem recv_bool (x : Option Bool) (b : Ty) (v : Val) (h : asgRecv cfg false (.bool x) b = true) (hi : inst cfg false b v = true) :
-    inst cfg false (.bool x) v = true := by
+theorem recv_bool (x : Option Bool) (b : Ty) (v : Val) (h : asgRecv cfg sfh (.bool x) b = true) (hi : inst cfg sfh b v = true) :
+    inst cfg sfh (.bool x) v = true := by
   unfold asgRecv at h; cases b <;> simp at h
   unfold inst at hi ⊢; cases v <;> simp at hi ⊢
   rcases h with h | h
   · left; exact h
   · subst h; exact hi
 
-theorem recv_strSz (hl : ∀ s, (cfg.lower s).length = s.length) (r : Rng) (b : Ty) (v : Val) (h : asgRecv cfg false (.strSz r) b = true) (hi : inst cfg false b v = true) :
-    inst cfg false (.strSz r) v = true := by
+theorem recv_strSz (hl : ∀ s, (cfg.lower s).length = s.length) (r : Rng) (b : Ty) (v : Val) (h : asgRecv cfg sfh (.strSz r) b = true) (hi : inst cfg sfh b v = true) :
+    inst cfg sfh (.strSz r) v = true := by
   unfold asgRecv at h; cases b <;> simp at h
   · unfold inst at hi ⊢; cases v <;> simp at hi ⊢
     exact Rng.sub_contains h hi
@@ -129,13 +129,13 @@ theorem instStruct_size (sfh : Bool) (ms : List Member) (es : List (Val × Val))
   simp [structSize, Rng.contains]
   omega
 
-theorem recv_strVal (s : String) (b : Ty) (v : Val) (h : asgRecv cfg false (.strVal s) b = true) (hi : inst cfg false b v = true) :
-    inst cfg false (.strVal s) v = true := by
+theorem recv_strVal (s : String) (b : Ty) (v : Val) (h : asgRecv cfg sfh (.strVal s) b = true) (hi : inst cfg sfh b v = true) :
+    inst cfg sfh (.strVal s) v = true := by
   unfold asgRecv at h; cases b <;> simp at h
   subst h; exact hi
 
-theorem recv_regexp (s : String) (b : Ty) (v : Val) (h : asgRecv cfg false (.regexp s) b = true) (hi : inst cfg false b v = true) :
-    inst cfg false (.regexp s) v = true := by
+theorem recv_regexp (s : String) (b : Ty) (v : Val) (h : asgRecv cfg sfh (.regexp s) b = true) (hi : inst cfg sfh b v = true) :
+    inst cfg sfh (.regexp s) v = true := by
   unfold asgRecv at h; cases b <;> simp at h
   unfold inst at hi ⊢; cases v <;> simp at hi ⊢
   rcases h with h | h
@@ -143,12 +143,12 @@ theorem recv_regexp (s : String) (b : Ty) (v : Val) (h : asgRecv cfg false (.reg
   · subst h; exact hi
 
 theorem recv_enum (vs : List String) (ci : Bool) (b : Ty) (v : Val) (wb : Ty.WF cfg b)
-    (h : asgRecv cfg false (.enum vs ci) b = true) (hi : inst cfg false b v = true) :
-    inst cfg false (.enum vs ci) v = true := by
+    (h : asgRecv cfg sfh (.enum vs ci) b = true) (hi : inst cfg sfh b v = true) :
+    inst cfg sfh (.enum vs ci) v = true := by
   unfold asgRecv at h
   by_cases he : vs.isEmpty = true
   · simp only [he, if_true] at h
-    obtain ⟨s, rfl⟩ := inst_strfam cfg h hi
+    obtain ⟨s, rfl⟩ := inst_strfam cfg sfh h hi
     unfold inst; simp [enumInst, he]
   · simp only [he] at h
     cases b <;> simp at h
@@ -177,8 +177,8 @@ theorem recv_enum (vs : List String) (ci : Bool) (b : Ty) (v : Val) (wb : Ty.WF 
           exact h1
 
 theorem recv_pattern (rs : List String) (b : Ty) (v : Val)
-    (h : asgRecv cfg false (.pattern rs) b = true) (hi : inst cfg false b v = true) :
-    inst cfg false (.pattern rs) v = true := by
+    (h : asgRecv cfg sfh (.pattern rs) b = true) (hi : inst cfg sfh b v = true) :
+    inst cfg sfh (.pattern rs) v = true := by
   unfold asgRecv at h
   cases b <;> simp at h
   · -- str
@@ -212,8 +212,8 @@ theorem recv_pattern (rs : List String) (b : Ty) (v : Val)
         exact ⟨r, hsub r hr, hm⟩
 
 theorem recv_coll (r : Rng) (b : Ty) (v : Val) (ok : v.OK)
-    (h : asgRecv cfg false (.coll r) b = true) (hi : inst cfg false b v = true) :
-    inst cfg false (.coll r) v = true := by
+    (h : asgRecv cfg sfh (.coll r) b = true) (hi : inst cfg sfh b v = true) :
+    inst cfg sfh (.coll r) v = true := by
   unfold asgRecv at h
   cases b <;> simp at h
   · unfold inst at hi ⊢; cases v <;> simp at hi ⊢ <;> exact Rng.sub_contains h hi
@@ -221,11 +221,11 @@ theorem recv_coll (r : Rng) (b : Ty) (v : Val) (ok : v.OK)
   · unfold inst at hi ⊢; cases v <;> simp at hi ⊢; exact Rng.sub_contains h hi.1
   · unfold inst at hi ⊢; cases v <;> simp at hi ⊢; exact Rng.sub_contains h hi.1
   · unfold inst at hi ⊢; cases v <;> simp at hi ⊢
-    exact Rng.sub_contains h (instStruct_size cfg false _ _ ok.nodup hi)
+    exact Rng.sub_contains h (instStruct_size cfg sfh _ _ ok.nodup hi)
 
 theorem recv_object (p : Option (List Nat)) (b : Ty) (v : Val)
-    (h : asgRecv cfg false (.object p) b = true) (hi : inst cfg false b v = true) :
-    inst cfg false (.object p) v = true := by
+    (h : asgRecv cfg sfh (.object p) b = true) (hi : inst cfg sfh b v = true) :
+    inst cfg sfh (.object p) v = true := by
   unfold asgRecv at h
   cases b <;> simp at h
   rename_i q
@@ -240,13 +240,13 @@ theorem recv_object (p : Option (List Nat)) (b : Ty) (v : Val)
       cases v <;> simp at hi ⊢
       exact isPrefix_trans _ _ _ h hi
 
-theorem Hyp.mk' {a b : Ty} {v : Val} (fa : a.Frag) (fb : b.Frag) (wa : Ty.WF cfg a) (wb : Ty.WF cfg b) (us : b.US) (ok : v.OK) (tv : Val.TyOK cfg v) :
-    Hyp cfg a b v := ⟨fa, fb, wa, wb, us, ok, tv⟩
+theorem Hyp.mk' {a b : Ty} {v : Val} (fa : a.Frag sfh) (fb : b.Frag sfh) (wa : Ty.WF cfg a) (wb : Ty.WF cfg b) (us : b.US) (ok : v.OK) (tv : Val.TyOK cfg v) :
+    Hyp cfg sfh a b v := ⟨fa, fb, wa, wb, us, ok, tv⟩
 
-theorem recv_variant (n : Nat) (ih : Sound cfg n) (as : List Ty) (b : Ty) (v : Val)
-    (hw : (Ty.variant as).w + b.w ≤ n + 1) (H : Hyp cfg (.variant as) b v)
-    (h : asgRecv cfg false (.variant as) b = true) (hi : inst cfg false b v = true) :
-    inst cfg false (.variant as) v = true := by
+theorem recv_variant (n : Nat) (ih : Sound cfg sfh n) (as : List Ty) (b : Ty) (v : Val)
+    (hw : (Ty.variant as).w + b.w ≤ n + 1) (H : Hyp cfg sfh (.variant as) b v)
+    (h : asgRecv cfg sfh (.variant as) b = true) (hi : inst cfg sfh b v = true) :
+    inst cfg sfh (.variant as) v = true := by
   unfold asgRecv at h
   rw [asgAnyL_iff] at h
   obtain ⟨a, hm, ha⟩ := h
@@ -256,13 +256,13 @@ theorem recv_variant (n : Nat) (ih : Sound cfg n) (as : List Ty) (b : Ty) (v : V
   simp only [Ty.w] at hw
   exact ⟨a, hm, ih a b v (by have := Ty.w_lt_wl hm; omega) ⟨fa a hm, H.fb, wa a hm, H.wb, H.us, H.ok, H.tv⟩ ha hi⟩
 
-theorem inst_undef_eq {v : Val} (h : inst cfg false .undef v = true) : v = .undef := by
+theorem inst_undef_eq {v : Val} (h : inst cfg sfh .undef v = true) : v = .undef := by
   unfold inst at h; cases v <;> simp at h; rfl
 
-theorem recv_optional (n : Nat) (ih : Sound cfg n) (x : Ty) (b : Ty) (v : Val)
-    (hw : (Ty.optional x).w + b.w ≤ n + 1) (H : Hyp cfg (.optional x) b v)
-    (h : asgRecv cfg false (.optional x) b = true) (hi : inst cfg false b v = true) :
-    inst cfg false (.optional x) v = true := by
+theorem recv_optional (n : Nat) (ih : Sound cfg sfh n) (x : Ty) (b : Ty) (v : Val)
+    (hw : (Ty.optional x).w + b.w ≤ n + 1) (H : Hyp cfg sfh (.optional x) b v)
+    (h : asgRecv cfg sfh (.optional x) b = true) (hi : inst cfg sfh b v = true) :
+    inst cfg sfh (.optional x) v = true := by
   unfold asgRecv at h
   have fa := H.fa; unfold Ty.Frag at fa
   have wa := H.wa; unfold Ty.WF at wa
@@ -271,26 +271,26 @@ theorem recv_optional (n : Nat) (ih : Sound cfg n) (x : Ty) (b : Ty) (v : Val)
   unfold inst
   rcases h with h | h
   · have := ih .undef b v (by simp [Ty.w]; omega) ⟨by unfold Ty.Frag; trivial, H.fb, by unfold Ty.WF; trivial, H.wb, H.us, H.ok, H.tv⟩ h hi
-    rw [inst_undef_eq cfg this]; simp
+    rw [inst_undef_eq cfg sfh this]; simp
   · have := ih x b v (by omega) ⟨fa, H.fb, wa, H.wb, H.us, H.ok, H.tv⟩ h hi
     simp [this]
 
-theorem recv_notUndef (n : Nat) (ih : Sound cfg n) (x : Ty) (b : Ty) (v : Val)
-    (hw : (Ty.notUndef x).w + b.w ≤ n + 1) (H : Hyp cfg (.notUndef x) b v)
-    (h : asgRecv cfg false (.notUndef x) b = true) (hi : inst cfg false b v = true) :
-    inst cfg false (.notUndef x) v = true := by
+theorem recv_notUndef (n : Nat) (ih : Sound cfg sfh n) (x : Ty) (b : Ty) (v : Val)
+    (hw : (Ty.notUndef x).w + b.w ≤ n + 1) (H : Hyp cfg sfh (.notUndef x) b v)
+    (h : asgRecv cfg sfh (.notUndef x) b = true) (hi : inst cfg sfh b v = true) :
+    inst cfg sfh (.notUndef x) v = true := by
   unfold asgRecv at h
   have fa := H.fa; unfold Ty.Frag at fa
   have wa := H.wa; unfold Ty.WF at wa
   simp only [Ty.w] at hw
-  have key : ∀ (b' : Ty), b' = b → asg cfg false b' .undef = false → asg cfg false x b' = true → inst cfg false (.notUndef x) v = true := by
+  have key : ∀ (b' : Ty), b' = b → asg cfg sfh b' .undef = false → asg cfg sfh x b' = true → inst cfg sfh (.notUndef x) v = true := by
     intro b' hb' h1 h2
     subst hb'
     have hx := ih x b' v (by omega) ⟨fa, H.fb, wa, H.wb, H.us, H.ok, H.tv⟩ h2 hi
     unfold inst
     have hv : v ≠ .undef := by
       intro hv; subst hv
-      have := inst_undef_complete cfg false _ b' (Nat.le_refl _) hi
+      have := inst_undef_complete cfg sfh _ b' (Nat.le_refl _) hi
       rw [this] at h1; cases h1
     cases v <;> simp [hx] at hv ⊢
   cases b with
@@ -303,7 +303,7 @@ theorem recv_notUndef (n : Nat) (ih : Sound cfg n) (x : Ty) (b : Ty) (v : Val)
     simp only [Bool.and_eq_true] at hi
     simp only [Ty.w] at hw
     simp only [Bool.or_eq_true] at h
-    have hx : inst cfg false x v = true := by
+    have hx : inst cfg sfh x v = true := by
       rcases h with h | h
       · exact ih x y v (by omega) ⟨fa, fb, wa, wb, us, H.ok, H.tv⟩ h hi.2
       · exact ih x (.notUndef y) v (by simp [Ty.w]; omega) ⟨fa, H.fb, wa, H.wb, H.us, H.ok, H.tv⟩ h
@@ -313,10 +313,10 @@ theorem recv_notUndef (n : Nat) (ih : Sound cfg n) (x : Ty) (b : Ty) (v : Val)
     simp only [Bool.and_eq_true, Bool.not_eq_true'] at h
     exact key _ rfl h.1 h.2
 
-theorem recv_sensitive (n : Nat) (ih : Sound cfg n) (x : Ty) (b : Ty) (v : Val)
-    (hw : (Ty.sensitive x).w + b.w ≤ n + 1) (H : Hyp cfg (.sensitive x) b v)
-    (h : asgRecv cfg false (.sensitive x) b = true) (hi : inst cfg false b v = true) :
-    inst cfg false (.sensitive x) v = true := by
+theorem recv_sensitive (n : Nat) (ih : Sound cfg sfh n) (x : Ty) (b : Ty) (v : Val)
+    (hw : (Ty.sensitive x).w + b.w ≤ n + 1) (H : Hyp cfg sfh (.sensitive x) b v)
+    (h : asgRecv cfg sfh (.sensitive x) b = true) (hi : inst cfg sfh b v = true) :
+    inst cfg sfh (.sensitive x) v = true := by
   unfold asgRecv at h
   cases b <;> simp at h
   rename_i y
@@ -330,52 +330,52 @@ theorem recv_sensitive (n : Nat) (ih : Sound cfg n) (x : Ty) (b : Ty) (v : Val)
   cases v <;> simp at hi ⊢
   exact ih x y _ (by omega) ⟨fa, fb, wa, wb, us, H.ok.inner, H.tv.inner⟩ h hi
 
-theorem triv_frag_str : Ty.Frag .str := by unfold Ty.Frag; trivial
-theorem leaf_hyp {a b : Ty} {v : Val} (H : Hyp cfg a b v) (c : Ty) (hf : c.Frag) (hwf : Ty.WF cfg c) : Hyp cfg c b v :=
+theorem triv_frag_str : Ty.Frag .str sfh := by unfold Ty.Frag; trivial
+theorem leaf_hyp {a b : Ty} {v : Val} (H : Hyp cfg sfh a b v) (c : Ty) (hf : c.Frag sfh) (hwf : Ty.WF cfg c) : Hyp cfg sfh c b v :=
   ⟨hf, H.fb, hwf, H.wb, H.us, H.ok, H.tv⟩
 
-theorem recv_scalar (n : Nat) (ih : Sound cfg n) (b : Ty) (v : Val)
-    (hw : Ty.scalar.w + b.w ≤ n + 1) (H : Hyp cfg .scalar b v)
-    (h : asgRecv cfg false .scalar b = true) (hi : inst cfg false b v = true) :
-    inst cfg false .scalar v = true := by
+theorem recv_scalar (n : Nat) (ih : Sound cfg sfh n) (b : Ty) (v : Val)
+    (hw : Ty.scalar.w + b.w ≤ n + 1) (H : Hyp cfg sfh .scalar b v)
+    (h : asgRecv cfg sfh .scalar b = true) (hi : inst cfg sfh b v = true) :
+    inst cfg sfh .scalar v = true := by
   unfold asgRecv at h
   simp only [Ty.w] at hw
-  have key : (asg cfg false .str b || asg cfg false .numeric b || asg cfg false (.bool none) b || asg cfg false (.regexp "") b) = true →
-      inst cfg false .scalar v = true := by
+  have key : (asg cfg sfh .str b || asg cfg sfh .numeric b || asg cfg sfh (.bool none) b || asg cfg sfh (.regexp "") b) = true →
+      inst cfg sfh .scalar v = true := by
     intro h
     simp only [Bool.or_eq_true] at h
     rcases h with ((h | h) | h) | h
-    · have := ih .str b v (by simp [Ty.w]; omega) (leaf_hyp cfg H _ (by unfold Ty.Frag; trivial) (by unfold Ty.WF; trivial)) h hi
+    · have := ih .str b v (by simp [Ty.w]; omega) (leaf_hyp cfg sfh H _ (by unfold Ty.Frag; trivial) (by unfold Ty.WF; trivial)) h hi
       unfold inst at this ⊢; cases v <;> simp [isScalarVal] at this ⊢
-    · have := ih .numeric b v (by simp [Ty.w]; omega) (leaf_hyp cfg H _ (by unfold Ty.Frag; trivial) (by unfold Ty.WF; trivial)) h hi
+    · have := ih .numeric b v (by simp [Ty.w]; omega) (leaf_hyp cfg sfh H _ (by unfold Ty.Frag; trivial) (by unfold Ty.WF; trivial)) h hi
       unfold inst at this ⊢; cases v <;> simp [isScalarVal] at this ⊢
-    · have := ih (.bool none) b v (by simp [Ty.w]; omega) (leaf_hyp cfg H _ (by unfold Ty.Frag; trivial) (by unfold Ty.WF; trivial)) h hi
+    · have := ih (.bool none) b v (by simp [Ty.w]; omega) (leaf_hyp cfg sfh H _ (by unfold Ty.Frag; trivial) (by unfold Ty.WF; trivial)) h hi
       unfold inst at this ⊢; cases v <;> simp [isScalarVal] at this ⊢
-    · have := ih (.regexp "") b v (by simp [Ty.w]; omega) (leaf_hyp cfg H _ (by unfold Ty.Frag; trivial) (by unfold Ty.WF; trivial)) h hi
+    · have := ih (.regexp "") b v (by simp [Ty.w]; omega) (leaf_hyp cfg sfh H _ (by unfold Ty.Frag; trivial) (by unfold Ty.WF; trivial)) h hi
       unfold inst at this ⊢; cases v <;> simp [isScalarVal] at this ⊢
   cases b with
   | scalar => exact hi
   | scalarData => unfold inst at hi ⊢; cases v <;> simp [isScalarVal] at hi ⊢
   | _ => exact key h
 
-theorem recv_scalarData (n : Nat) (ih : Sound cfg n) (b : Ty) (v : Val)
-    (hw : Ty.scalarData.w + b.w ≤ n + 1) (H : Hyp cfg .scalarData b v)
-    (h : asgRecv cfg false .scalarData b = true) (hi : inst cfg false b v = true) :
-    inst cfg false .scalarData v = true := by
+theorem recv_scalarData (n : Nat) (ih : Sound cfg sfh n) (b : Ty) (v : Val)
+    (hw : Ty.scalarData.w + b.w ≤ n + 1) (H : Hyp cfg sfh .scalarData b v)
+    (h : asgRecv cfg sfh .scalarData b = true) (hi : inst cfg sfh b v = true) :
+    inst cfg sfh .scalarData v = true := by
   unfold asgRecv at h
   simp only [Ty.w] at hw
-  have key : (asg cfg false .str b || asg cfg false (.int Rng.all) b || asg cfg false (.bool none) b || asg cfg false floatAll b) = true →
-      inst cfg false .scalarData v = true := by
+  have key : (asg cfg sfh .str b || asg cfg sfh (.int Rng.all) b || asg cfg sfh (.bool none) b || asg cfg sfh floatAll b) = true →
+      inst cfg sfh .scalarData v = true := by
     intro h
     simp only [Bool.or_eq_true] at h
     rcases h with ((h | h) | h) | h
-    · have := ih .str b v (by simp [Ty.w]; omega) (leaf_hyp cfg H _ (by unfold Ty.Frag; trivial) (by unfold Ty.WF; trivial)) h hi
+    · have := ih .str b v (by simp [Ty.w]; omega) (leaf_hyp cfg sfh H _ (by unfold Ty.Frag; trivial) (by unfold Ty.WF; trivial)) h hi
       unfold inst at this ⊢; cases v <;> simp at this ⊢
-    · have := ih (.int Rng.all) b v (by simp [Ty.w]; omega) (leaf_hyp cfg H _ (by unfold Ty.Frag; trivial) (by unfold Ty.WF; trivial)) h hi
+    · have := ih (.int Rng.all) b v (by simp [Ty.w]; omega) (leaf_hyp cfg sfh H _ (by unfold Ty.Frag; trivial) (by unfold Ty.WF; trivial)) h hi
       unfold inst at this ⊢; cases v <;> simp at this ⊢
-    · have := ih (.bool none) b v (by simp [Ty.w]; omega) (leaf_hyp cfg H _ (by unfold Ty.Frag; trivial) (by unfold Ty.WF; trivial)) h hi
+    · have := ih (.bool none) b v (by simp [Ty.w]; omega) (leaf_hyp cfg sfh H _ (by unfold Ty.Frag; trivial) (by unfold Ty.WF; trivial)) h hi
       unfold inst at this ⊢; cases v <;> simp at this ⊢
-    · have := ih floatAll b v (by simp [Ty.w, floatAll]; omega) (leaf_hyp cfg H _ (by unfold floatAll Ty.Frag; trivial) (by unfold floatAll Ty.WF; trivial)) h hi
+    · have := ih floatAll b v (by simp [Ty.w, floatAll]; omega) (leaf_hyp cfg sfh H _ (by unfold floatAll Ty.Frag; trivial) (by unfold floatAll Ty.WF; trivial)) h hi
       unfold floatAll at this
       unfold inst at this ⊢; cases v <;> simp at this ⊢
   cases b with
@@ -383,13 +383,13 @@ theorem recv_scalarData (n : Nat) (ih : Sound cfg n) (b : Ty) (v : Val)
   | _ => exact key h
 
 /-- `inst e x` holds trivially when `e` is Any -/
-theorem inst_of_isAny {e : Ty} (h : e.isAny = true) (x : Val) : inst cfg false e x = true := by
+theorem inst_of_isAny {e : Ty} (h : e.isAny = true) (x : Val) : inst cfg sfh e x = true := by
   cases e <;> simp [Ty.isAny] at h; unfold inst; rfl
 
-theorem recv_array (n : Nat) (ih : Sound cfg n) (e : Ty) (r : Rng) (b : Ty) (v : Val)
-    (hw : (Ty.array e r).w + b.w ≤ n + 1) (H : Hyp cfg (.array e r) b v)
-    (h : asgRecv cfg false (.array e r) b = true) (hi : inst cfg false b v = true) :
-    inst cfg false (.array e r) v = true := by
+theorem recv_array (n : Nat) (ih : Sound cfg sfh n) (e : Ty) (r : Rng) (b : Ty) (v : Val)
+    (hw : (Ty.array e r).w + b.w ≤ n + 1) (H : Hyp cfg sfh (.array e r) b v)
+    (h : asgRecv cfg sfh (.array e r) b = true) (hi : inst cfg sfh b v = true) :
+    inst cfg sfh (.array e r) v = true := by
   unfold asgRecv at h
   have fa := H.fa; unfold Ty.Frag at fa
   have wa := H.wa; unfold Ty.WF at wa
@@ -417,11 +417,11 @@ theorem recv_array (n : Nat) (ih : Sound cfg n) (e : Ty) (r : Rng) (b : Ty) (v :
       subst this; cases hx
     rcases us with us | us
     · exact absurd us hnone
-    · have hx' : inst cfg false e' x = true := by
+    · have hx' : inst cfg sfh e' x = true := by
         rcases hi.2 with h2 | h2
-        · exact inst_of_isAny cfg h2 x
-        · exact (instAll_iff cfg false e' vs).1 h2 x hx
-      have hee : asg cfg false e e' = true := by
+        · exact inst_of_isAny cfg sfh h2 x
+        · exact (instAll_iff cfg sfh e' vs).1 h2 x hx
+      have hee : asg cfg sfh e e' = true := by
         have := h.2; simp only [Bool.or_eq_true, decide_eq_true_eq] at this
         rcases this with h3 | h3
         · exact absurd h3 hnone
@@ -462,12 +462,12 @@ theorem recv_array (n : Nat) (ih : Sound cfg n) (e : Ty) (r : Rng) (b : Ty) (v :
         have hcond : ¬(ts'.isEmpty = true) := by rw [hts]; simp
         have h2 := h.2
         rw [if_neg hz, if_neg hcond] at h2
-        have hall := (asgAllR_iff cfg false e ts').1 h2
-        have hzip : instZip cfg false ts' vs = true := by
+        have hall := (asgAllR_iff cfg sfh e ts').1 h2
+        have hzip : instZip cfg sfh ts' vs = true := by
           rcases hi.2 with h2 | h2
           · simp [hts] at h2
           · exact h2
-        rw [instZip_iff cfg false ts' vs hne] at hzip
+        rw [instZip_iff cfg sfh ts' vs hne] at hzip
         obtain ⟨i, hlt, hget⟩ := List.getElem_of_mem hx
         have hlen : min i (ts'.length - 1) < ts'.length := by
           have : 0 < ts'.length := List.length_pos_iff.2 hne
@@ -480,10 +480,10 @@ theorem recv_array (n : Nat) (ih : Sound cfg n) (e : Ty) (r : Rng) (b : Ty) (v :
 theorem length_zero_of_contains {r : Rng} {n : Nat} (h : r.contains n = true) (hz : r.hi ≤ 0) : n = 0 := by
   simp [Rng.contains] at h; omega
 
-theorem recv_hash (n : Nat) (ih : Sound cfg n) (k x : Ty) (r : Rng) (b : Ty) (v : Val)
-    (hw : (Ty.hash k x r).w + b.w ≤ n + 1) (H : Hyp cfg (.hash k x r) b v)
-    (h : asgRecv cfg false (.hash k x r) b = true) (hi : inst cfg false b v = true) :
-    inst cfg false (.hash k x r) v = true := by
+theorem recv_hash (n : Nat) (ih : Sound cfg sfh n) (k x : Ty) (r : Rng) (b : Ty) (v : Val)
+    (hw : (Ty.hash k x r).w + b.w ≤ n + 1) (H : Hyp cfg sfh (.hash k x r) b v)
+    (h : asgRecv cfg sfh (.hash k x r) b = true) (hi : inst cfg sfh b v = true) :
+    inst cfg sfh (.hash k x r) v = true := by
   unfold asgRecv at h
   have fa := H.fa; unfold Ty.Frag at fa
   have wa := H.wa; unfold Ty.WF at wa
@@ -510,8 +510,8 @@ theorem recv_hash (n : Nat) (ih : Sound cfg n) (k x : Ty) (r : Rng) (b : Ty) (v 
       subst this; cases he
     rcases us with us | us
     · exact absurd us hnone
-    · have h2 := (instEntries_iff cfg false k' x' es).1 hi.2 e he
-      have hkv : asg cfg false k k' = true ∧ asg cfg false x x' = true := by
+    · have h2 := (instEntries_iff cfg sfh k' x' es).1 hi.2 e he
+      have hkv : asg cfg sfh k k' = true ∧ asg cfg sfh x x' = true := by
         have := h.2; simp only [Bool.or_eq_true, decide_eq_true_eq, Bool.and_eq_true] at this
         rcases this with h3 | h3
         · exact absurd h3 hnone
@@ -530,24 +530,24 @@ theorem recv_hash (n : Nat) (ih : Sound cfg n) (k x : Ty) (r : Rng) (b : Ty) (v 
     rename_i es
     simp only [beq_iff_eq] at hi
     simp only [Bool.and_eq_true]
-    refine ⟨Rng.sub_contains h.1 (instStruct_size cfg false ms' es H.ok.nodup hi), ?_⟩
+    refine ⟨Rng.sub_contains h.1 (instStruct_size cfg sfh ms' es H.ok.nodup hi), ?_⟩
     rw [instEntries_iff]
     intro e he
-    obtain ⟨hdecl, _⟩ := (instStruct_den cfg false ms' es H.ok.nodup wb.1).1 hi
+    obtain ⟨hdecl, _⟩ := (instStruct_den cfg sfh ms' es H.ok.nodup wb.1).1 hi
     obtain ⟨m, hm, hk, hmi⟩ := hdecl e he
-    have hmem := (asgMembers_iff cfg false k x ms').1 h.2 m hm
+    have hmem := (asgMembers_iff cfg sfh k x ms').1 h.2 m hm
     have hwm := Ty.w_lt_wm hm
     constructor
     · have := ih k (.strVal m.1) e.1 (by simp [Ty.w]; omega)
         ⟨fa.1, by unfold Ty.Frag; trivial, wa.1, by unfold Ty.WF; trivial, by unfold Ty.US; trivial, H.ok.keys e he, H.tv.keys e he⟩ hmem.1
         (by rw [hk]; unfold inst; simp)
       exact this
-    · exact ih x m.2.2 e.2 (by omega) ⟨fa.2, fb m hm, wa.2, wb.2 m hm, us m hm, H.ok.vals e he, H.tv.vals e he⟩ hmem.2 hmi
+    · exact ih x m.2.2 e.2 (by omega) ⟨fa.2, fb.2 m hm, wa.2, wb.2 m hm, us m hm, H.ok.vals e he, H.tv.vals e he⟩ hmem.2 hmi
 
-theorem recv_tuple (n : Nat) (ih : Sound cfg n) (ts : List Ty) (g : Option Rng) (b : Ty) (v : Val)
-    (hw : (Ty.tuple ts g).w + b.w ≤ n + 1) (H : Hyp cfg (.tuple ts g) b v)
-    (h : asgRecv cfg false (.tuple ts g) b = true) (hi : inst cfg false b v = true) :
-    inst cfg false (.tuple ts g) v = true := by
+theorem recv_tuple (n : Nat) (ih : Sound cfg sfh n) (ts : List Ty) (g : Option Rng) (b : Ty) (v : Val)
+    (hw : (Ty.tuple ts g).w + b.w ≤ n + 1) (H : Hyp cfg sfh (.tuple ts g) b v)
+    (h : asgRecv cfg sfh (.tuple ts g) b = true) (hi : inst cfg sfh b v = true) :
+    inst cfg sfh (.tuple ts g) v = true := by
   unfold asgRecv at h
   have fa := H.fa; unfold Ty.Frag at fa
   have wa := H.wa; unfold Ty.WF at wa
@@ -568,7 +568,7 @@ theorem recv_tuple (n : Nat) (ih : Sound cfg n) (ts : List Ty) (g : Option Rng) 
     by_cases hts : ts = []
     · left; simp [hts]
     · right
-      rw [instZip_iff cfg false ts vs hts]
+      rw [instZip_iff cfg sfh ts vs hts]
       intro i t x ht hx
       have hxm : x ∈ vs := List.mem_of_getElem? hx
       have hm : t ∈ ts := List.mem_of_getElem? ht
@@ -581,17 +581,17 @@ theorem recv_tuple (n : Nat) (ih : Sound cfg n) (ts : List Ty) (g : Option Rng) 
         rcases us with us | us
         · exact absurd us hpos
         · exact us
-      have hall : asgAllL cfg false ts e' = true := by
+      have hall : asgAllL cfg sfh ts e' = true := by
         rcases h.2 with (h2 | h2) | h2
         · simp [List.isEmpty_iff] at h2; exact absurd h2 hts
         · simp at h2; omega
         · exact h2
-      have hx' : inst cfg false e' x = true := by
+      have hx' : inst cfg sfh e' x = true := by
         rcases hi.2 with h2 | h2
-        · exact inst_of_isAny cfg h2 x
-        · exact (instAll_iff cfg false e' vs).1 h2 x hxm
+        · exact inst_of_isAny cfg sfh h2 x
+        · exact (instAll_iff cfg sfh e' vs).1 h2 x hxm
       exact ih t e' x (by have := Ty.w_lt_wl hm; omega) ⟨fa t hm, fb, wa t hm, wb, us', H.ok.elems x hxm, H.tv.elems x hxm⟩
-        ((asgAllL_iff cfg false ts e').1 hall t hm) hx'
+        ((asgAllL_iff cfg sfh ts e').1 hall t hm) hx'
   · -- tuple
     rename_i ts' g'
     have fb := H.fb; unfold Ty.Frag at fb
@@ -607,7 +607,7 @@ theorem recv_tuple (n : Nat) (ih : Sound cfg n) (ts : List Ty) (g : Option Rng) 
     by_cases hts : ts = []
     · left; simp [hts]
     · right
-      rw [instZip_iff cfg false ts vs hts]
+      rw [instZip_iff cfg sfh ts vs hts]
       intro i t x ht hx
       have hxm : x ∈ vs := List.mem_of_getElem? hx
       have hm : t ∈ ts := List.mem_of_getElem? ht
@@ -623,7 +623,7 @@ theorem recv_tuple (n : Nat) (ih : Sound cfg n) (ts : List Ty) (g : Option Rng) 
         rcases us with us | us
         · exact absurd us hpos
         · exact us
-      have h2 : (if ts'.isEmpty = true then ((tupleSize ts' g').hi == 0) = true else tupZip cfg false ts ts' (tupleSize ts' g').hi = true) := by
+      have h2 : (if ts'.isEmpty = true then ((tupleSize ts' g').hi == 0) = true else tupZip cfg sfh ts ts' (tupleSize ts' g').hi = true) := by
         rcases h.2 with h2 | h2
         · simp [List.isEmpty_iff] at h2; exact absurd h2 hts
         · split at h2 <;> simp_all
@@ -631,13 +631,13 @@ theorem recv_tuple (n : Nat) (ih : Sound cfg n) (ts : List Ty) (g : Option Rng) 
       · simp [hts'] at h2; subst hts'; omega
       · have hne' : ¬ (ts'.isEmpty = true) := by simp [List.isEmpty_iff, hts']
         rw [if_neg hne'] at h2
-        rw [tupZip_iff cfg false ts ts' _ hts hts'] at h2
+        rw [tupZip_iff cfg sfh ts ts' _ hts hts'] at h2
         -- the value's position i is described by ts'[min i last]
-        have hzip' : instZip cfg false ts' vs = true := by
+        have hzip' : instZip cfg sfh ts' vs = true := by
           rcases hi.2 with h3 | h3
           · exact absurd h3 hne'
           · exact h3
-        rw [instZip_iff cfg false ts' vs hts'] at hzip'
+        rw [instZip_iff cfg sfh ts' vs hts'] at hzip'
         have hl' : min i (ts'.length - 1) < ts'.length := by
           have : 0 < ts'.length := List.length_pos_iff.2 hts'
           omega
@@ -647,7 +647,7 @@ theorem recv_tuple (n : Nat) (ih : Sound cfg n) (ts : List Ty) (g : Option Rng) 
         have hik : (i : Int) < (tupleSize ts' g').hi := by
           have := hi.1; simp [Rng.contains] at this; omega
         -- the compared position: i itself, or the last compared one when i is beyond both declared lists
-        have hasg : asg cfg false t ts'[min i (ts'.length - 1)] = true := by
+        have hasg : asg cfg sfh t ts'[min i (ts'.length - 1)] = true := by
           have hlt : 0 < ts.length := List.length_pos_iff.2 hts
           have hlt' : 0 < ts'.length := List.length_pos_iff.2 hts'
           by_cases hmax : i < max ts.length ts'.length
@@ -661,16 +661,19 @@ theorem recv_tuple (n : Nat) (ih : Sound cfg n) (ts : List Ty) (g : Option Rng) 
         exact ih t _ x (by have := Ty.w_lt_wl hm; have := Ty.w_lt_wl hm'; omega)
           ⟨fa t hm, fb _ hm', wa t hm, wb _ hm', us' _ hm', H.ok.elems x hxm, H.tv.elems x hxm⟩ hasg hix
 
-theorem recv_struct (n : Nat) (ih : Sound cfg n) (ms : List Member) (b : Ty) (v : Val)
-    (hw : (Ty.struct ms).w + b.w ≤ n + 1) (H : Hyp cfg (.struct ms) b v)
-    (h : asgRecv cfg false (.struct ms) b = true) (hi : inst cfg false b v = true) :
-    inst cfg false (.struct ms) v = true := by
+theorem recv_struct (n : Nat) (ih : Sound cfg sfh n) (ms : List Member) (b : Ty) (v : Val)
+    (hw : (Ty.struct ms).w + b.w ≤ n + 1) (H : Hyp cfg sfh (.struct ms) b v)
+    (h : asgRecv cfg sfh (.struct ms) b = true) (hi : inst cfg sfh b v = true) :
+    inst cfg sfh (.struct ms) v = true := by
   unfold asgRecv at h
   have fa := H.fa; unfold Ty.Frag at fa
+  have hoff : sfh = false := fa.1
   have wa := H.wa; unfold Ty.WF at wa
   simp only [Ty.w] at hw
   cases b <;> simp only [] at h <;> (first | contradiction | skip)
-  · -- struct (the Hash arm is the exempt rule, switched off)
+  · -- the Hash arm is the exempt rule, switched off
+    rw [hoff] at h; simp at h
+  · -- struct
     rename_i ms'
     have fb := H.fb; unfold Ty.Frag at fb
     have wb := H.wb; unfold Ty.WF at wb
@@ -682,11 +685,11 @@ theorem recv_struct (n : Nat) (ih : Sound cfg n) (ms : List Member) (b : Ty) (v 
     rename_i es
     simp only [beq_iff_eq] at hi ⊢
     rw [distinctCount_nodup _ wb.1] at h
-    obtain ⟨hok, hc⟩ := (structAll_iff cfg false ms ms' wb.1 _).1 h
+    obtain ⟨hok, hc⟩ := (structAll_iff cfg sfh ms ms' wb.1 _).1 h
     rw [sFound_eq ms ms' wa.1, List.length_map] at hc
     have hallin : ∀ m' ∈ ms', nameIn ms m' = true := List.countP_eq_length.1 hc.symm
-    obtain ⟨hdecl, hreq⟩ := (instStruct_den cfg false ms' es H.ok.nodup wb.1).1 hi
-    rw [instStruct_den cfg false ms es H.ok.nodup wa.1]
+    obtain ⟨hdecl, hreq⟩ := (instStruct_den cfg sfh ms' es H.ok.nodup wb.1).1 hi
+    rw [instStruct_den cfg sfh ms es H.ok.nodup wa.1]
     constructor
     · intro e he
       obtain ⟨m', hm', hk, hmi⟩ := hdecl e he
@@ -696,17 +699,17 @@ theorem recv_struct (n : Nat) (ih : Sound cfg n) (ms : List Member) (b : Ty) (v 
       rw [nameIs_iff] at hnm
       refine ⟨m, hm, by rw [hk, hnm], ?_⟩
       have h1 := hok m hm
-      rw [SMemberOK, structMember_mem cfg false m.1 m.2.1 m.2.2 ms' wb.1 m' hm' hnm] at h1
+      rw [SMemberOK, structMember_mem cfg sfh m.1 m.2.1 m.2.2 ms' wb.1 m' hm' hnm] at h1
       simp only [Bool.and_eq_true] at h1
       exact ih m.2.2 m'.2.2 e.2 (by have := Ty.w_lt_wm hm; have := Ty.w_lt_wm hm'; omega)
-        ⟨fa m hm, fb m' hm', wa.2 m hm, wb.2 m' hm', us m' hm', H.ok.vals e he, H.tv.vals e he⟩ h1.2 hmi
+        ⟨fa.2 m hm, fb.2 m' hm', wa.2 m hm, wb.2 m' hm', us m' hm', H.ok.vals e he, H.tv.vals e he⟩ h1.2 hmi
     · intro m hm hopt
       have h1 := hok m hm
       rw [SMemberOK] at h1
-      cases hg : structMember cfg false m.1 m.2.1 m.2.2 ms' with
+      cases hg : structMember cfg sfh m.1 m.2.1 m.2.2 ms' with
       | none => rw [hg] at h1; simp [hopt] at h1
       | some b =>
-        obtain ⟨m', hm', hk, hb⟩ := structMember_some cfg false _ _ _ _ _ hg
+        obtain ⟨m', hm', hk, hb⟩ := structMember_some cfg sfh _ _ _ _ _ hg
         rw [hg] at h1
         simp only [] at h1
         subst h1
